@@ -449,6 +449,9 @@ Definition api_delete (ph : N) (c : ckind) (k0 : key) : M unit :=
   s <- get_st ;;
   target <- (match k with
              | KeyObj h => x <- the_handle h ;;
+                           (* a Feature is not an Entity: `del tag.features[feature]` goes through
+                              self[feature] and is refused with a TypeError *)
+                           guard (negb (ekind_eqb (hk x) KFeature)) EType ;;;
                            guard (ekind_eqb (hk x) (ckind_item c)) EType ;;; ret (ha x)
              | _ => r <- lift_sum (container_get (sto s) (child (sto s) (ha p) (TS (cgroup (hk p) c))) k (hs s)) ;;
                     ret (snd r)
